@@ -218,6 +218,41 @@ def gen_case(r, feature, shared=False):
     return tasks, order, HELPERS + "".join(src) + main
 
 
+def many_task_cases(r, n):
+    """a task's result stays available however many tasks run in between and however often it is awaited: early tasks with int /
+    long / string / struct results finish, then K small tasks (K up to 300) are spawned and awaited, then the early futures are
+    awaited — for the first time or again; also from inside another task"""
+    HDR = ("struct Pt { int x; string n; };\n"
+           "async int fi(int v) {\n    yield;\n    return v * 2;\n}\n"
+           "async long fl(int v) {\n    return 3000000000 + v;\n}\n"
+           "async string fs(int v) {\n    yield;\n    return \"S{v}\";\n}\n"
+           "async Pt fp(int v) {\n    Pt p;\n    p.x = v;\n    p.n = \"made\";\n    return p;\n}\n"
+           "async int small(int v) {\n    return v + 1;\n}\n"
+           "async int late_waiter(int k) {\n    Future<int> child = fi(k);\n    int acc = 0;\n    for (int i = 0; i < 140; i++) {\n        Future<int> f = small(i);\n        int got = await f;\n        acc = acc + got;\n    }\n"
+           "    int c = await child;\n    return acc + c;\n}\n")
+    cases = []
+    for k in range(n):
+        K = [0, 20, 127, 128, 129, 150, 300][k % 7] if k < 7 else r.range(100, 320)
+        v = r.range(1, 50)
+        body = ["    Future<int> a = fi(%d);\n    Future<long> b = fl(%d);\n    Future<string> c = fs(%d);\n    Future<Pt> d = fp(%d);\n" % (v, v, v, v)]
+        exp = []
+        first = r.below(2)
+        if first:
+            body.append("    int a0 = await a;\n    println(\"first\", a0);\n")
+            exp.append("first %d" % (2 * v))
+        body.append("    long acc = 0;\n    for (int i = 0; i < %d; i++) {\n        Future<int> f = small(i);\n        int got = await f;\n        acc = acc + got;\n    }\n    println(\"acc\", acc);\n" % K)
+        exp.append("acc %d" % (K * (K + 1) // 2))
+        body.append("    int a1 = await a;\n    long b1 = await b;\n    string c1 = await c;\n    Pt d1 = await d;\n    println(a1, b1, c1, d1.x, d1.n);\n")
+        exp.append("%d %d S%d %d made" % (2 * v, 3000000000 + v, v, v))
+        body.append("    int a2 = await a;\n    println(\"again\", a2);\n")
+        exp.append("again %d" % (2 * v))
+        if k % 3 == 0:
+            body.append("    Future<int> w = late_waiter(%d);\n    int wv = await w;\n    println(\"waiter\", wv);\n" % v)
+            exp.append("waiter %d" % (140 * 141 // 2 + 2 * v))
+        cases.append(("many-%d-K%d" % (k, K), HDR + "int main() {\n" + "".join(body) + "    println(\"END\");\n    return 0;\n}\n", "\n".join(exp) + "\nEND\n"))
+    return cases
+
+
 def main(a):
     v = common.Verdict(PID, a.tier, a.seed)
     has = os.path.exists(os.path.join(common.LEAN, "CbProps", "C14.lean"))
@@ -315,6 +350,18 @@ def main(a):
             report("structured", "%s: %s" % (feat, "; ".join(problems[:2])),
                    {"program": src, "expected_projection": exp_proj, "impl_stdout": o[0], "impl_exit_class": o[1], "impl_stderr": o[2][-300:],
                     "feature": feat}, cell=feat)
+    # ---- C: many tasks; results awaited late, twice, and of type string / struct
+    mt = many_task_cases(r, 6 if quick else 200)
+    mouts = common.run_programs(exe, [c[1] for c in mt], timeout=20)
+    dist["many-tasks"] = len(mt)
+    for (cid, src, exp), o in zip(mt, mouts):
+        nontrivial.add(("C", cid))
+        if o[0] == exp and o[1] == "ok":
+            continue
+        el, gl = exp.split("\n"), o[0].split("\n")
+        k = next((i for i in range(max(len(el), len(gl))) if (el[i] if i < len(el) else None) != (gl[i] if i < len(gl) else None)), 0)
+        report("many-tasks", "%s: line %d: expected %r got %r (%s)" % (cid, k, el[k] if k < len(el) else "<end>", gl[k] if k < len(gl) else "<end>", o[1]),
+               {"program": src, "expected_stdout": exp, "impl_stdout": o[0], "impl_exit_class": o[1], "impl_stderr": o[2][-300:]}, cell="many_tasks")
     for key, whats in sorted(census.items(), key=lambda kv: str(kv[0])):
         common.log("CENSUS %s x%d: %s" % (key, len(whats), whats[0][:300]))
     for f in findings:
@@ -333,5 +380,6 @@ def main(a):
                 "(running it alone). non-trivial = distinct output / program" % len(FEATURES),
         "exhaustive": False})
     v.assumptions += ["task bodies use int parameters / locals only; structs, strings and Option/Result as awaited values are not generated",
-                      "a task is awaited exactly once by main; awaits inside the structured bodies are not generated (they are in suite A)"]
+                      "in suites A and B a task is awaited exactly once by main; repeated and late awaits of int / long / string / struct results after up to "
+                      "300 further tasks are suite C (fixed program shape, expected output computed by the harness)"]
     return v.finish()
